@@ -51,8 +51,14 @@ def project(sensors, transient=True):
     """Canonical text of a sensors mapping; same layout as the model driver's `showSensors`."""
     out = []
     for sid, s in sensors.items():
+        if not (hasattr(s, "children") and hasattr(s, "sensor_id")):
+            out.append(f"N{pkey(sid)}{{not-a-node:{type(s).__name__}}}")        # e.g. a plain dict after a bad load
+            continue
         ch = []
         for cid, c in s.children.items():
+            if not (hasattr(c, "values") and hasattr(c, "id")):
+                ch.append(f"{pkey(cid)}:not-a-child:{type(c).__name__}")
+                continue
             vals = ",".join(f"{pkey(k)}={pstr(v)}" for k, v in c.values.items())
             ch.append(f"{pkey(cid)}:{pint(c.id)}:{pint(c.type)}:{pstr(c.description)}:V({vals})")
         ds, q, r = [], "", "0"
@@ -81,6 +87,13 @@ def project_nodes(sensors):
 
 def typed(sensors):
     """Is the mapping inside the model's typed state space?"""
+    try:
+        return _typed(sensors)
+    except AttributeError:
+        return False            # something in it is not a node / child object at all
+
+
+def _typed(sensors):
     for sid, s in sensors.items():
         if type(sid) is not int or type(s.sensor_id) is not int:
             return False
